@@ -31,7 +31,8 @@ BUILTIN_TYPE_WORDS = ["str", "f32", "f64"]
 def ptype(t):
     k = t[0]
     if k in ("u", "i"):
-        return "%s%d" % (k, t[1])
+        # an optional third element is the width as WRITTEN in the source ("u05"): same type, other spelling
+        return t[2] if len(t) > 2 else "%s%d" % (k, t[1])
     if k in ("f32", "f64", "str"):
         return k
     if k in ("enum", "struct"):
@@ -63,9 +64,9 @@ def dtype(t):
     """Image of a type in FcpV2.to_dict()."""
     k = t[0]
     if k == "u":
-        return {"name": "u%d" % t[1], "type": "unsigned"}
+        return {"name": ptype(t), "type": "unsigned"}
     if k == "i":
-        return {"name": "i%d" % t[1], "type": "signed"}
+        return {"name": ptype(t), "type": "signed"}
     if k == "f32":
         return {"name": "f32", "type": "float"}
     if k == "f64":
